@@ -205,6 +205,31 @@ BRANCHES = [
     'development/4.3\t', 'development/4.3\r\n', 'development/4.3\x00',
     'stabilization/4.3.1\n', 'development/4.3;id', '--upload-pack=x',
 ]
+
+
+def _near_grammar(names, subs=('/', '-', 'x', ' ', '_', '7', '', ':', '..',
+                               ',')):
+    """Every documented name with each of its separators replaced in turn
+    by another character (a one-character slip in the validating regular
+    expression shows here and nowhere else)."""
+    out = []
+    for name in names:
+        for i, ch in enumerate(name):
+            if ch not in './':
+                continue
+            for sub in subs:
+                if sub == ch:
+                    continue
+                cand = name[:i] + sub + name[i + 1:]
+                if cand not in out and cand not in names:
+                    out.append(cand)
+    return out
+
+
+BRANCHES += [b for b in _near_grammar(
+    ['development/4.3', 'stabilization/4.3.1', 'hotfix/4.3.1'])
+    if b not in BRANCHES]
+
 PR_IDS = ['1', '7', '1337', '2147483647',
           '99999999999999999999999', '01', '１',
           '0', '00', '-1', '-0', '+1', 'abc', '1.5', '1e3', '0x10', '',
